@@ -118,6 +118,21 @@ fn display_impl(kind: u64, v: Val) -> Option<String> {
 }
 
 // ---------- Coq printers ----------
+/// a byte string as `(bs len value)`: big-endian value in decimal (one numeral instead of a
+/// list literal: the case files parse several times faster)
+fn coq_bs(b: &[u8]) -> String {
+    if b.is_empty() { return "[]".to_string(); }
+    // base-256 -> base-10^9
+    let mut digits: Vec<u32> = vec![0];
+    for &x in b {
+        let mut carry = x as u64;
+        for d in digits.iter_mut() { let v = (*d as u64) * 256 + carry; *d = (v % 1_000_000_000) as u32; carry = v / 1_000_000_000; }
+        while carry > 0 { digits.push((carry % 1_000_000_000) as u32); carry /= 1_000_000_000; }
+    }
+    let mut s = format!("{}", digits.last().unwrap());
+    for d in digits.iter().rev().skip(1) { s += &format!("{:09}", d); }
+    format!("(bs {} {})", b.len(), s)
+}
 fn coq_host(h: Host) -> String {
     match h { Host::V4(a) => format!("(H4 {a})"), Host::V6(a) => format!("(H6 {a})"), Host::Svc(s) => format!("(HS {s})") }
 }
@@ -131,14 +146,29 @@ fn coq_val(v: Val) -> String {
 fn val_host(v: Val) -> Option<Host> {
     match v { Val::Host(h) | Val::Addr(_, h) | Val::Sock(_, h, _) => Some(h), _ => None }
 }
-/// every substring of `s` that std parses as Ipv4Addr or Ipv6Addr
+/// every substring of `s`, between the positions at which the parsers can cut a host string
+/// (string ends, one byte in from either end, after ',' '[' or whitespace, before ']' ','
+/// or whitespace, around the last ':'), that std parses as Ipv4Addr or Ipv6Addr.  A query of
+/// the model outside this table would be answered "not an IP address" and show up as a
+/// disagreement with the implementation.
 fn ip_table(s: &str) -> Vec<(String, Host)> {
     let idx: Vec<usize> = s.char_indices().map(|(i, _)| i).chain(std::iter::once(s.len())).collect();
+    let chars: Vec<(usize, char)> = s.char_indices().collect();
+    let mut starts: Vec<usize> = vec![0];
+    let mut ends: Vec<usize> = vec![s.len()];
+    if idx.len() > 1 { starts.push(idx[1]); ends.push(idx[idx.len() - 2]); }
+    for (k, &(i, c)) in chars.iter().enumerate() {
+        let next = idx[k + 1];
+        if c == ',' || c == '[' || c.is_whitespace() { starts.push(next); }
+        if c == ',' || c == ']' || c.is_whitespace() { ends.push(i); }
+    }
+    if let Some(p) = s.rfind(':') { ends.push(p); if p > 0 { if let Some(&q) = idx.iter().rev().find(|&&q| q < p) { ends.push(q); } } }
+    starts.sort(); starts.dedup(); ends.sort(); ends.dedup();
     let mut out: Vec<(String, Host)> = vec![];
-    for (a, &i) in idx.iter().enumerate() {
-        for &j in &idx[a + 1..] {
+    for &i in &starts {
+        for &j in &ends {
+            if j <= i || j - i > 50 { continue; }
             let t = &s[i..j];
-            if t.len() > 50 { break; }
             let h = if let Ok(x) = Ipv4Addr::from_str(t) { Some(Host::V4(x.to_bits())) }
                     else if let Ok(x) = Ipv6Addr::from_str(t) { Some(Host::V6(x.to_bits())) } else { None };
             if let Some(h) = h { if !out.iter().any(|(u, _)| u == t) { out.push((t.to_string(), h)); } }
@@ -163,14 +193,14 @@ fn emit(c: &Case, sh: &mut Shards, sum: &mut Summary, seen: &mut std::collection
     if let Some(l) = &c.list { for (_, h) in l { add(Some(*h)); } }
     for (_, h) in &tbl { add(Some(*h)); }
     let (rs, show, rh) = match &res {
-        Res::Ok(v, d) => (format!("(ROk {})", coq_val(*v)), coq_opt(d.as_ref().map(|d| coq_bytes(d.as_bytes()))), format!("Ok {:?}", v)),
+        Res::Ok(v, d) => (format!("(ROk {})", coq_val(*v)), coq_opt(d.as_ref().map(|d| coq_bs(d.as_bytes()))), format!("Ok {:?}", v)),
         Res::OkList(l) => (format!("(ROk (VList {}))", coq_pairs(l)), "None".to_string(), format!("Ok {:?}", l)),
         Res::Err(c) => (format!("(RErr {c})"), "None".to_string(), format!("Err {c}")),
         Res::Panic => ("RPanic".to_string(), "None".to_string(), "PANIC".to_string()),
     };
-    let case = format!("mkT {} {} {} {} {} {} {}", c.kind, coq_bytes(c.input.as_bytes()),
-        coq_list(tbl.iter().map(|(t, h)| format!("({},{})", coq_bytes(t.as_bytes()), coq_host(*h)))),
-        rs, coq_list(disp.iter().map(|(h, d)| format!("({},{})", coq_host(*h), coq_bytes(d.as_bytes())))),
+    let case = format!("mkT {} {} {} {} {} {} {}", c.kind, coq_bs(c.input.as_bytes()),
+        coq_list(tbl.iter().map(|(t, h)| format!("({},{})", coq_bs(t.as_bytes()), coq_host(*h)))),
+        rs, coq_list(disp.iter().map(|(h, d)| format!("({},{})", coq_host(*h), coq_bs(d.as_bytes())))),
         show, match &c.list { Some(l) => format!("(Some (VList {}))", coq_pairs(l)), None => coq_opt(c.val.map(coq_val)) });
     sum.count(&format!("kind.{}", KIND_NAMES[c.kind as usize]));
     sum.count(&format!("class.{}", c.class));
@@ -392,11 +422,12 @@ fn main() {
     for a in ALPHA { small.push(a.to_string()); for b in ALPHA { small.push(format!("{a}{b}")); for c in ALPHA { small.push(format!("{a}{b}{c}")); } } }
     let small_kinds: Vec<u64> = if thorough { (0..N_KINDS).collect() } else { vec![K_SOCK] };
     for k in &small_kinds { for s in &small { cases.push(Case { kind: *k, input: s.clone(), val: None, class: "small", list: None }); } }
-    if !thorough { for (i, s) in small.iter().enumerate() { if i % 3 == 0 { cases.push(Case { kind: (i as u64 / 3) % N_KINDS, input: s.clone(), val: None, class: "small", list: None }); } } }
+    if !thorough { for (i, s) in small.iter().enumerate() { if i % 6 == 0 { cases.push(Case { kind: (i as u64 / 6) % N_KINDS, input: s.clone(), val: None, class: "small", list: None }); } } }
 
     // 3. random stream
     let mut i = 0u64;
-    while cases.len() < n {
+    let fixed_cases = cases.len();
+    while cases.len() < fixed_cases + n {
         let kind = i % N_KINDS; i += 1;
         let v = gen_val(&mut rng, kind);
         let c = match rng.below(10) {
@@ -417,7 +448,7 @@ fn main() {
         };
         cases.push(c);
     }
-    let n_txt = n / 5;
+    let n_txt = n / 4;
     gen_txt_cases(&mut rng, n_txt, thorough, &mut cases);
     for mut c in cases {
         if let Some(v) = c.val {
